@@ -889,6 +889,8 @@ func runC13(w *World, r *Report) {
 	c13Width(w, r)
 	c03StreamBound(w, r, "C13-b")
 	c13Incomplete(w, r)
+	c13EveryChunkHandled(w, r)
+	c13PassThrough(w, r)
 	c13ReadClamp(w, r)
 	c13Getters(w, r)
 	c13Verify(w, r)
@@ -1189,5 +1191,109 @@ func c13Verify(w *World, r *Report) {
 			n = c.Call.StaticCallee().Name()
 		}
 		r.Check(ok2, "C13-e", fnName(cp), "error of "+n+" #"+ordinal(cp, c)+" propagated", w.relFile(c.Pos()), why, "CopyPartitionRaw ignores the error of "+n+": "+why)
+	}
+}
+
+// c13EveryChunkHandled: in WriteContents every chunk obtained from the reader is handled (its count tested
+// against zero / written) before the loop can be left towards a success return: a reader may return data
+// together with io.EOF.
+func c13EveryChunkHandled(w *World, r *Report) {
+	for _, n := range partitionImpls(w) {
+		wc := w.MethodOf(n, "WriteContents")
+		if wc == nil {
+			continue
+		}
+		name := fnName(wc)
+		var reads []*ssa.Call
+		for _, cc := range calls(wc, false, func(c ssa.CallInstruction) bool { return methodCallSig(c, "Read", 1, 2) }) {
+			if c, ok := cc.(*ssa.Call); ok {
+				reads = append(reads, c)
+			}
+		}
+		if len(reads) == 0 {
+			r.Fail("C13-b", name, "reader consumed", w.relFile(wc.Pos()), "WriteContents never reads from its reader")
+			continue
+		}
+		isRead := map[ssa.Instruction]bool{}
+		counts := map[ssa.Value]bool{}
+		for _, c := range reads {
+			isRead[c] = true
+			for _, ref := range *c.Referrers() {
+				if ex, ok := ref.(*ssa.Extract); ok && ex.Index == 0 {
+					counts[ex] = true
+				}
+			}
+		}
+		rule := &flowRule{w: w}
+		rule.step = func(ins ssa.Instruction, s int) (uint64, bool) {
+			if isRead[ins] {
+				return 1 << 1, true
+			}
+			return 0, false
+		}
+		rule.edge = func(b *ssa.BasicBlock, idx int, s int) (uint64, bool) {
+			iff, ok := lastInstr(b).(*ssa.If)
+			if !ok {
+				return 0, false
+			}
+			bin, ok := iff.Cond.(*ssa.BinOp)
+			if !ok {
+				return 0, false
+			}
+			// count compared with zero: the chunk is being handled
+			z, isZ := constInt(bin.Y)
+			if isZ && z == 0 && counts[stripConv(bin.X)] {
+				return 1 << 0, true
+			}
+			return 0, false
+		}
+		res := rule.run(wc, 1, 0)
+		bad := 0
+		for ret, m := range res.successReturns() {
+			if m&(1<<1) != 0 {
+				bad++
+				r.Fail("C13-b", name, "every chunk read is handled before success", w.relFile(instrPos(ret)),
+					"a success return is reachable after a Read whose byte count was never examined: bytes delivered together with io.EOF are dropped (or never counted against the size)", trailTo(w, ret.Block())...)
+			}
+		}
+		if bad == 0 {
+			r.Ok("C13-b", name, "every chunk read is handled before success", w.relFile(wc.Pos()), "")
+		}
+	}
+}
+
+// c13PassThrough: Disk.WritePartitionContents / ReadPartitionContents hand the caller's reader/writer to the
+// partition unchanged (no wrapper that would hide an oversize or short stream from the size checks).
+func c13PassThrough(w *World, r *Report) {
+	disk := w.Named("disk", "Disk")
+	for _, spec := range []struct{ method, callee, param string }{
+		{"WritePartitionContents", "WriteContents", "reader"},
+		{"ReadPartitionContents", "ReadContents", "writer"},
+	} {
+		m := w.MethodOf(disk, spec.method)
+		if m == nil {
+			fatalf("C13: disk.Disk.%s not found", spec.method)
+		}
+		var p *ssa.Parameter
+		for _, q := range m.Params {
+			if q.Name() == spec.param {
+				p = q
+			}
+		}
+		n := 0
+		for _, cc := range calls(m, false, func(c ssa.CallInstruction) bool { return callMethodName(c) == spec.callee }) {
+			n++
+			a := argsOf(cc)
+			ok := p != nil && len(a) == 2 && a[1] == ssa.Value(p)
+			r.Check(ok, "C13-b", fnName(m), "caller's "+spec.param+" is passed to the partition unchanged", w.relFile(cc.Pos()), "",
+				"the stream handed to "+spec.callee+" is not the caller's own "+spec.param+": a wrapper can truncate or pad it so that the partition's size checks never see a mismatch")
+			if c, isCall := cc.(*ssa.Call); isCall {
+				ok2, why := errorIsChecked(c)
+				r.Check(ok2, "C13-b", fnName(m), "error of "+spec.callee+" returned", w.relFile(cc.Pos()), why, "the partition's error is dropped: "+why)
+			}
+		}
+		if n == 0 {
+			r.Fail("C13-b", fnName(m), "delegates to "+spec.callee, w.relFile(m.Pos()), spec.method+" does not call the partition's "+spec.callee)
+		}
 	}
 }
